@@ -399,6 +399,7 @@ func ruleEscSet(c *Ctx) {
 	}
 	l := c.L
 	sp := b.Codec
+	b.memberNameEscapes(l)
 	tables := map[*ssa.Global]*[256]bool{}
 	for _, n := range []string{"safeSet", "htmlSafeSet"} {
 		if g, _ := sp.Members[n].(*ssa.Global); g != nil {
@@ -845,4 +846,86 @@ func encOptsField(v ssa.Value, name string) ssa.Value {
 		}
 	}
 	return out
+}
+
+// memberNameEscapes (R-ESCSET, v5): the emitter of an object spells member names with the
+// codec's string encoder. C15 lets the EscapeHTML switch decide the spelling of all five
+// characters (<, >, &, U+2028, U+2029) in strings *and member names*: off means no such escape
+// is introduced. The string encoder follows encoding/json (as C17 requires of it) and escapes
+// U+2028/U+2029 whatever the flag says, so a name holding one of them comes out escaped with
+// the switch off, while values — kept as text and only compacted — stay as they were.
+func (b *Body) memberNameEscapes(l *Ledger) {
+	em := b.method(b.Lib, "partialDoc", "TrustMarshalJSON")
+	if em == nil || b.Codec == nil {
+		return
+	}
+	// the call that encodes a member name: a codec Marshal* call on a string
+	var nameCall *ssa.Call
+	allInstrs(em, func(i ssa.Instruction) {
+		call, ok := i.(*ssa.Call)
+		if !ok {
+			return
+		}
+		f := call.Call.StaticCallee()
+		if f == nil || f.Pkg != b.Codec || !strings.HasPrefix(f.Name(), "Marshal") || len(call.Call.Args) == 0 {
+			return
+		}
+		a := call.Call.Args[0]
+		if mi, ok := a.(*ssa.MakeInterface); ok {
+			a = mi.X
+		}
+		if isStringType(a.Type()) {
+			nameCall = call
+		}
+	})
+	key := "(*partialDoc).TrustMarshalJSON: with EscapeHTML off a member name is written without escaping U+2028/U+2029"
+	if nameCall == nil {
+		l.add("R-ESCSET", "v5", key, b.rel(em.Pos()), Undecided, "the call that encodes a member name was not found", false)
+		return
+	}
+	se := b.method(b.Codec, "encodeState", "string")
+	if se == nil {
+		l.add("R-ESCSET", "v5", key, b.posOf(nameCall), Undecided, "(*encodeState).string not found", false)
+		return
+	}
+	var flag *ssa.Parameter
+	for _, p := range se.Params[1:] {
+		if bt, ok := p.Type().Underlying().(*types.Basic); ok && bt.Kind() == types.Bool {
+			flag = p
+		}
+	}
+	underFlag := true
+	n := 0
+	allInstrs(se, func(i ssa.Instruction) {
+		call, ok := i.(*ssa.Call)
+		if !ok || len(call.Call.Args) < 2 {
+			return
+		}
+		s, isS := strConst(call.Call.Args[1])
+		if !isS || s != `\u202` {
+			return
+		}
+		n++
+		dep := false
+		for _, e := range b.controlDepsTransitive(call.Block()) {
+			if iff, ok := lastInstr(e.From).(*ssa.If); ok && flag != nil {
+				t := taintClosure(se, []ssa.Value{flag}, nil)
+				if t[iff.Cond] {
+					dep = true
+				}
+			}
+		}
+		if !dep {
+			underFlag = false
+		}
+	})
+	if n == 0 {
+		l.add("R-ESCSET", "v5", key, b.posOf(nameCall), Discharged, "the string encoder has no U+2028/U+2029 escape", true)
+		return
+	}
+	if underFlag {
+		l.add("R-ESCSET", "v5", key, b.posOf(nameCall), Discharged, "the U+2028/U+2029 escape of the string encoder is under its escapeHTML flag", true)
+		return
+	}
+	l.add("R-ESCSET", "v5", key, b.posOf(nameCall), Violated, "member names are spelled by "+fname(nameCall.Call.StaticCallee())+" → (*encodeState).string, whose U+2028/U+2029 escape does not depend on the escapeHTML flag: with EscapeHTML off a name holding U+2028 is written as \\u2028 (an escape the patch introduces), while the same character in a value stays raw", true)
 }
